@@ -58,6 +58,18 @@ def check_stdio_typestate(ctx: Ctx, oid: str) -> None:
             for r in rets:
                 if not any(cfp.dominated_by(r.id, b.id) for b in dup2s):
                     ob.violation(fp, r.ast, f"init_popen_io can return without fd {fd} being redirected to devnull")
+        # descriptor allocation order: the kernel hands out the lowest free number, so when the worker was started with a low
+        # descriptor closed (fd 2: `2>&-`, a daemonising parent) the FIRST descriptor this function allocates becomes that
+        # number.  If it were the duplicate of the protocol's output pipe, everything written to stderr would enter the frame
+        # stream; a duplicate of the (read-only) input side or devnull is harmless.
+        d1 = nodes_calling(lambda c: unparse(c.func) == "os.dup" and len(c.args) == 1 and repo.fold_in(c.args[0], fp) == 1)
+        alloc = nodes_calling(lambda c: (unparse(c.func) == "os.dup" and len(c.args) == 1 and repo.fold_in(c.args[0], fp) != 1) or unparse(c.func) == "os.open")
+        for n in d1:
+            ok = any(a.id != n.id and cfp.dominated_by(n.id, a.id) for a in alloc)
+            ob.site(fp, n.ast, "the duplicate of the output pipe is not the first descriptor allocated (a closed fd 2 cannot become the protocol stream)", ok=ok)
+            if not ok:
+                ob.violation(fp, n.ast, "os.dup(1) is the first descriptor init_popen_io allocates: in a worker started with fd 2 closed the protocol's output pipe lands on "
+                                        "fd 2 and everything the remote code writes to stderr enters the frame stream", construct="dup(1) allocated first")
         rb = {}
         for n in cfp.nodes:
             if isinstance(n.ast, ast.Assign) and unparse(n.ast.targets[0]) in ("sys.stdin", "sys.stdout") and n.id in cfp.live() and any(cfp.dominated_by(n.id, p.id) for p in pio):
@@ -232,15 +244,35 @@ def check(ctx: Ctx) -> None:
             raise AnalysisError("C06.h: _find_non_builtin_globals uses a scanning idiom the checker does not know")
         if whole_source:
             from ..util import xtext
-            # which names are exempted: every membership test on the scanned node's id
+            # which names are exempted: every membership test on the scanned node's id, each container split into the maps
+            # it is made of (ChainMap(A, B), A | B, {**A, **B}, set(A)/dict.fromkeys(A)/vars(A)/dir(A) wrappers; locals expanded)
+            def parts(e: ast.AST, depth: int = 0) -> list[str]:
+                if depth > 6:
+                    return [unparse(e)]
+                if isinstance(e, ast.Name):
+                    al = repo.local_alias(e.id, fg)
+                    if al is not None and not isinstance(al, ast.Name):
+                        return parts(al, depth + 1)
+                if isinstance(e, ast.Call) and not e.keywords and unparse(e.func).split(".")[-1] == "ChainMap":
+                    return [p_ for a in e.args for p_ in parts(a, depth + 1)]
+                if isinstance(e, ast.BinOp) and isinstance(e.op, ast.BitOr):
+                    return parts(e.left, depth + 1) + parts(e.right, depth + 1)
+                if isinstance(e, ast.Dict) and all(k is None for k in e.keys):
+                    return [p_ for a in e.values for p_ in parts(a, depth + 1)]
+                if isinstance(e, ast.Call) and not e.keywords and len(e.args) == 1 and unparse(e.func) in ("set", "frozenset", "dict", "list", "tuple", "dict.fromkeys", "vars", "dir", "sorted"):
+                    return parts(e.args[0], depth + 1)
+                if isinstance(e, (ast.Set, ast.List, ast.Tuple)) and all(isinstance(x, ast.Starred) for x in e.elts) and e.elts:
+                    return [p_ for a in e.elts for p_ in parts(a.value, depth + 1)]
+                return [xtext(repo, fg, e)]
             exempt = []
             for x in repo.own_nodes(fg):
                 if isinstance(x, ast.Compare) and len(x.ops) == 1 and isinstance(x.ops[0], (ast.In, ast.NotIn)) and xtext(repo, fg, x.left) == "node.id":
-                    exempt.append(xtext(repo, fg, x.comparators[0]))
+                    exempt += parts(x.comparators[0])
             name_test = any(isinstance(x, ast.Call) and unparse(x.func) == "isinstance" and len(x.args) == 2 and unparse(x.args[1]) == "ast.Name" for x in repo.own_nodes(fg))
-            bad = [e for e in exempt if "co_varnames" not in e and "builtins" not in e]
+            LOCALS, BUILTINS = (f"{code_p}.co_varnames",), ("builtins.__dict__", "builtins", "__builtins__")
+            bad = [e for e in exempt if e not in LOCALS + BUILTINS]
             ob.site(fg, fg.node, "exempted names = local variable names of the code object and builtins only", exemptions=exempt)
-            if bad or not name_test or not any("builtins" in e for e in exempt):
+            if bad or not name_test or not any(e in BUILTINS for e in exempt):
                 ob.violation(fg, fg.node, f"the purity scan exempts more than local variable names and builtins ({bad or exempt})", construct=f"exemptions {bad or exempt}")
 
     with ctx.obligation("C06.b", "namespace") as ob:
